@@ -1,5 +1,6 @@
 from vf import Job
 TA = "c12_alloc.c"
+TR = "c12_release.c"
 # page carving loop of myth_flmalloc: `while (p < p2) { push(list, p); p += realsize; }`
 CARVE_INV = ("0 <= g_pushes && g_pushes <= 511 && 8 <= realsize && realsize <= 2048 && (g_pushes + 1) * (long)realsize <= 4096 && "
              "p2 == (char *)ptr + 4096 && p == (char *)ptr + (g_pushes + 1) * (long)realsize")
@@ -9,6 +10,16 @@ L_CARVE = {"myth_flmalloc": [dict(loop_id="0", assigns="p, g_pushes", invariants
 LEDGER = ["myth_freelist_push:verif_push", "myth_freelist_pop:verif_pop"]
 ALLOC = LEDGER + ["myth_flmalloc:verif_flmalloc", "myth_flfree:verif_flfree"]
 U2 = ["--unwind", "2", "--unwinding-assertions"]     # for (i = 0; i < STACK_ALLOC_UNIT; i++), STACK_ALLOC_UNIT == 1: constant of the build
+# ledger stubs of part 2 (bodies in c12_release.c)
+REL = ["free_myth_thread_struct_stack:verif_free_stack", "free_myth_thread_struct_desc:verif_free_desc",
+       "myth_spin_lock_body:verif_lock", "myth_spin_unlock_body:verif_unlock", "myth_queue_pop:verif_queue_pop",
+       "myth_tls_tree_fini:verif_tls_fini"]
+HOOK = [("status", "verif_rd_status")]
+# spin loops `while (th->status != MYTH_STATUS_FREE_READY2) { }`: the environment step sits in the read hook
+SPIN_INV = ("g_role == 2 && g_lock_held == 0 && g_desc_rel == 0 && g_handed_over == 0 && g_stack_rel == 0 && "
+            "(T->status >= 2 ==> T->result == g_result)")
+def spin(fn, n):
+    return {fn: [dict(loop_id=str(i), assigns="T->status, T->result", invariants=SPIN_INV) for i in range(n)]}
 JOBS = [
   Job("c12.sizeclass", TA, "h_sizeclass", fuc=["MYTH_MALLOC_SIZE_TO_INDEX"], timeout=120),
   Job("c12.freelist.push", TA, "h_push", enforce=["myth_freelist_push/push_contract"], fuc=["myth_freelist_push"], timeout=120),
@@ -27,5 +38,16 @@ JOBS = [
   Job("c12.stack.none", TA, "h_stack_none", replace_calls=ALLOC, fuc=["free_myth_thread_struct_stack"], timeout=120),
   Job("c12.desc", TA, "h_desc", replace_calls=LEDGER, cbmc=U2,
       fuc=["get_new_myth_thread_struct_desc", "free_myth_thread_struct_desc", "myth_mmap"], timeout=200),
+  Job("c12.entry_point_1", TR, "h_entry_point_1", replace_calls=REL, read_hooks=HOOK, fuc=["myth_entry_point_1"], timeout=200),
+  Job("c12.entry_point_2", TR, "h_entry_point_2", replace_calls=REL, read_hooks=HOOK, fuc=["myth_entry_point_2"], timeout=200),
+  Job("c12.cleanup", TR, "h_cleanup", replace_calls=REL, read_hooks=HOOK,
+      fuc=["myth_entry_point_cleanup", "myth_entry_point_1", "myth_entry_point_2"], timeout=200),
+  Job("c12.join_1", TR, "h_join_1", replace_calls=REL, read_hooks=HOOK, fuc=["myth_join_1"], timeout=200),
+  Job("c12.join", TR, "h_join", replace_calls=REL, read_hooks=HOOK, loops=spin("myth_join_body", 2), loop_counts={"myth_join_body": 2},
+      fuc=["myth_join_body", "myth_join_1", "myth_join_2", "myth_join_3", "myth_get_current_env", "myth_get_current_env_noinline"], timeout=200),
+  Job("c12.tryjoin", TR, "h_tryjoin", replace_calls=REL, read_hooks=HOOK, loops=spin("myth_tryjoin_body", 1), loop_counts={"myth_tryjoin_body": 1},
+      fuc=["myth_tryjoin_body", "myth_join_1"], timeout=200),
+  Job("c12.detach", TR, "h_detach", replace_calls=REL, read_hooks=HOOK, loops=spin("myth_detach_body", 1), loop_counts={"myth_detach_body": 1},
+      fuc=["myth_detach_body"], timeout=200),
 ]
 META = {}
